@@ -1,6 +1,6 @@
 (* C08 -- property theorems only: statement + exact + Print Assumptions. *)
 From Coq Require Import List ZArith Bool.
-From LJT Require Import model.Partial gen.GenScaling proofs.PartialGeomProofs proofs.PartialSchedProofs.
+From LJT Require Import model.Partial gen.GenScaling proofs.PartialGeomProofs proofs.PartialSchedProofs proofs.PartialCtxExamples.
 Import ListNotations.
 Local Open Scope Z_scope.
 
@@ -152,3 +152,22 @@ Example C08_no_hazard_examples :
   first_hazard (wg 8 2 100 false) a_init [Skip 5; Read 1; Skip 10; Read 3; Skip 33; Read 2; Skip 200; Read 5] = 0 /\
   first_hazard (wg 8 2 101 true) a_init [Read 3; Skip 3; Read 2; Skip 40; Read 7; Skip 1; Read 9; Skip 500] = 0.
 Proof. exact (conj example_no_hazard_sep example_no_hazard_merged). Qed.
+
+(* OPEN clause (gap, see design/C08.md): the same statement for the context (fancy h2v2 / h1v2) main controller
+   with its funny-pointer lists; modelled executably (run_c), tied to the code by correspondence, not proved.
+   The full statement is kept visible; below it holds on computed histories (skips 0/1/2 rows before an iMCU
+   boundary, several skips in a row, skip past the bottom). *)
+Definition C08_skip_read_equals_full_context_full : Prop :=
+  forall g ops, ctx_geom_ok g -> Forall op_nonneg ops ->
+  let res := run_c g (c_init g) ops in
+  c_scan (fst res) = Z.min (gH g) (total_requested ops) /\
+  Forall (fun yp => snd yp = ideal_c g (fst yp)) (delivered (snd res)).
+
+Example C08_context_controller_examples :
+  ctx_run_okb g420 [Read 53] = true /\
+  ctx_run_okb g420 [Skip 15; Read 1; Skip 17; Read 20] = true /\
+  ctx_run_okb g420 [Read 14; Skip 1; Read 1; Skip 16; Read 2; Skip 19; Read 1] = true /\
+  ctx_run_okb g420 [Skip 5; Skip 9; Skip 2; Read 3; Skip 17; Skip 1; Read 30] = true /\
+  ctx_run_okb g420x12 [Read 23; Skip 1; Read 1; Skip 24; Read 5; Skip 3; Skip 100] = true /\
+  ctx_run_okb g420x12 [Skip 22; Skip 2; Skip 1; Read 2; Skip 23; Read 40] = true.
+Proof. exact ctx_examples. Qed.
